@@ -77,6 +77,13 @@ impl<T> Tagged<RcInner<T>> {
         if self.is_null() {
             self
         } else {
+            #[cfg(circ_verif)]
+            if true {
+                crate::verif::pre(crate::verif::site::S_TS_EPOCH);
+                let stamped = self.with_high_tag(global_epoch());
+                crate::verif::pre(crate::verif::site::S_TS_DONE);
+                return stamped;
+            }
             self.with_high_tag(global_epoch())
         }
     }
@@ -140,6 +147,8 @@ impl<T: RcObject> AtomicRc<T> {
     /// Panics if `order` is `Release` or `AcqRel`.
     #[inline]
     pub fn load<'g>(&self, order: Ordering, guard: &'g Guard) -> Snapshot<'g, T> {
+        #[cfg(circ_verif)]
+        crate::verif::pre(crate::verif::site::S_LOAD);
         Snapshot::from_raw(self.link.load(order), guard)
     }
 
@@ -150,6 +159,8 @@ impl<T: RcObject> AtomicRc<T> {
     #[inline]
     pub fn store(&self, ptr: Rc<T>, order: Ordering, guard: &Guard) {
         let new_ptr = ptr.ptr;
+        #[cfg(circ_verif)]
+        crate::verif::pre(crate::verif::site::S_STORE);
         let old_ptr = self.link.swap(new_ptr.with_timestamp(), order);
         // Skip decrementing a strong count of the inserted pointer.
         forget(ptr);
@@ -169,6 +180,8 @@ impl<T: RcObject> AtomicRc<T> {
     #[inline(always)]
     pub fn swap(&self, new: Rc<T>, order: Ordering) -> Rc<T> {
         let new_ptr = new.into_raw();
+        #[cfg(circ_verif)]
+        crate::verif::pre(crate::verif::site::S_SWAP);
         let old_ptr = self.link.swap(new_ptr.with_timestamp(), order);
         Rc::from_raw(old_ptr)
     }
@@ -201,6 +214,8 @@ impl<T: RcObject> AtomicRc<T> {
         let mut expected_raw = expected.ptr;
         let desired_raw = desired.ptr.with_timestamp();
         loop {
+            #[cfg(circ_verif)]
+            crate::verif::pre(crate::verif::site::S_CAS);
             match self
                 .link
                 .compare_exchange(expected_raw, desired_raw, success, failure)
@@ -253,6 +268,8 @@ impl<T: RcObject> AtomicRc<T> {
         let mut expected_raw = expected.ptr;
         let desired_raw = desired.ptr.with_timestamp();
         loop {
+            #[cfg(circ_verif)]
+            crate::verif::pre(crate::verif::site::S_CASW);
             match self
                 .link
                 .compare_exchange_weak(expected_raw, desired_raw, success, failure)
@@ -310,6 +327,8 @@ impl<T: RcObject> AtomicRc<T> {
         let mut expected_raw = expected.ptr;
         let desired_raw = expected_raw.with_tag(desired_tag).with_timestamp();
         loop {
+            #[cfg(circ_verif)]
+            crate::verif::pre(crate::verif::site::S_CAST);
             match self
                 .link
                 .compare_exchange(expected_raw, desired_raw, success, failure)
